@@ -161,4 +161,86 @@ theorem sinv_step {S : Sem T PJ X V A} {c : SabaConfig} (L : SabaLaws S c)
     · exact hj.2.1
     · exact hj.2.2
 
+theorem sinv_sync (S : Sem T PJ X V A) (c : SabaConfig) {u v : Flags × St PJ X V A} (h : SInv S c u v) :
+    SInv S c (sabaApply S (c.mode false false) .synchronize u) v := by
+  rw [sabaApply_sync]
+  cases h with
+  | fresh h1 h2 h3 =>
+    have hs : u.1.isSync = true := by
+      have := congrArg Flags.isSync h2; rwa [initF_isSync] at this
+    rw [sabaSyncOps_unsafe_sync _ _ hs]
+    exact SInv.fresh _ _ h1 h2 h3
+  | unsync h1 h2 h3 h4 h5 =>
+    rw [h1, sabaSyncOps_unsafe_unsync]
+    refine SInv.synced _ _ rfl h2 ?_ ?_ ?_ h4 h5
+    · exact h3.symm
+    · show (exec S (sabaSyncMid c) u.2).pos = _
+      rw [(sabaSyncMid_pos S c _).1, ← h3, h4]
+    · show (exec S (sabaSyncMid c) u.2).vel = _
+      rw [(sabaSyncMid_pos S c _).2, ← h3, h5]
+  | synced h1 h2 h3 h4 h5 h6 h7 =>
+    rw [sabaSyncOps_unsafe_sync _ _ (by rw [h1]), h1]
+    exact SInv.synced _ _ rfl h2 h3 h4 h5 h6 h7
+
+theorem sinv_run {S : Sem T PJ X V A} {c : SabaConfig} (L : SabaLaws S c)
+    (σ : List (Op (X × V))) (hσ : ∀ o ∈ σ, o.benign = true) (u v : Flags × St PJ X V A)
+    (h : SInv S c u v) :
+    SInv S c (sabaRun S (c.mode false false) σ u) (sabaRun S (c.mode true false) (σ.filter Op.isStep) v) := by
+  induction σ generalizing u v with
+  | nil => exact h
+  | cons o os ih =>
+    have hos : ∀ o ∈ os, o.benign = true := fun o ho => hσ o (List.mem_cons_of_mem _ ho)
+    have ho := hσ o List.mem_cons_self
+    cases o with
+    | step =>
+      simp only [List.filter, Op.isStep, sabaRun]
+      exact ih hos _ _ (sinv_step L h)
+    | synchronize =>
+      simp only [List.filter, Op.isStep, sabaRun]
+      exact ih hos _ _ (sinv_sync S c h)
+    | read =>
+      simp only [List.filter, Op.isStep, sabaRun]
+      exact ih hos _ _ h
+    | setRecalc => simp [Op.benign] at ho
+    | poke v => simp [Op.benign] at ho
+
+theorem sinv_final (S : Sem T PJ X V A) (c : SabaConfig) {u v : Flags × St PJ X V A} (h : SInv S c u v) :
+    (sabaApply S (c.mode false false) .synchronize u).2.pj = v.2.pj ∧
+    (sabaApply S (c.mode false false) .synchronize u).2.pos = v.2.pos ∧
+    (sabaApply S (c.mode false false) .synchronize u).2.vel = v.2.vel := by
+  have := sinv_sync S c h
+  cases this with
+  | fresh h1 h2 h3 => rw [h1]; exact ⟨rfl, rfl, rfl⟩
+  | unsync h1 h2 h3 h4 h5 =>
+    exfalso
+    have : (sabaApply S (c.mode false false) .synchronize u).1.isSync = true := by
+      rw [sabaApply_sync]
+      cases hs : u.1.isSync
+      · have : u.1 = ⟨false, u.1.recalc, u.1.allocated⟩ := by rw [← hs]
+        rw [this, sabaSyncOps_unsafe_unsync]
+      · rw [sabaSyncOps_unsafe_sync _ _ hs]; exact hs
+    rw [h1] at this; cases this
+  | synced h1 h2 h3 h4 h5 h6 h7 => exact ⟨h3, h4, h5⟩
+
+/-! ### the merge law of the modified-kick corrector from laws of its factors -/
+
+/-- laws of the factors of `reb_saba_corrector_step`, modified-kick variant (types `0x1nn`) -/
+structure ModKickLaws (S : Sem T PJ X V A) (row : Nat) : Prop where
+  inter_add : ∀ a b acc p, S.inter a acc (S.inter b acc p) = S.inter (a + b) acc p
+  /-- kick and jerk do not move the positions -/
+  posJ_inter : ∀ b acc p, S.posJ (S.inter b acc p) = S.posJ p
+  posJ_jerk : ∀ x a p, S.posJ (S.jerk x a p) = S.posJ p
+  /-- the jerk buffer (acceleration members of `p_jh`) is overwritten, independently of the kick -/
+  jerk_inter : ∀ x a t b p, S.jerk x a (S.inter t b p) = S.inter t b (S.jerk x a p)
+  jerk_idem : ∀ x a p, S.jerk x a (S.jerk x a p) = S.jerk x a p
+  /-- the folded acceleration only reads the jerk buffer -/
+  fold_inter : ∀ t b p, S.sabaFold (S.inter t b p) = S.sabaFold p
+  ev_cc_double : S.ev (.sabaCC row 1) + S.ev (.sabaCC row 1) = S.ev (.sabaCC row 2)
+
+theorem saba_modified_kick_merge {S : Sem T PJ X V A} (t : Nat) (ht : t / 0x100 = 1)
+    (L : ModKickLaws S (t % 0x100)) (s : St PJ X V A) :
+    (exec S (sabaCorrOps t 1 ++ sabaCorrOps t 1) s).pj = (exec S (sabaCorrOps t 2) s).pj := by
+  simp only [sabaCorrOps, ht, exec, denote, List.append, List.cons_append, List.nil_append,
+    L.posJ_inter, L.posJ_jerk, L.jerk_inter, L.jerk_idem, L.fold_inter, L.inter_add, L.ev_cc_double]
+
 end RV.Sync
